@@ -98,7 +98,7 @@ class Problem:
     """One traced contract: symbolic pre/post, obligations, and what is needed to replay a model."""
 
     def __init__(self, title, args, ensures, requires=None, *, targets=(), use_stubs=True, while_bound=16,
-                 fmul_uf=False, arg_names=None, timeout=120, key_args=(), note=None):
+                 fmul_uf=False, arg_names=None, timeout=120, key_args=(), note=None, merge_over=None):
         self.title = title
         self.args = args
         self.ensures, self.requires = ensures, requires
@@ -128,7 +128,9 @@ class Problem:
         jaxpr, _ = pe.dce_jaxpr(cj.jaxpr, [True] * len(cj.jaxpr.outvars), instantiate=True)
         self.cj = jax.core.ClosedJaxpr(jaxpr, cj.consts)
         self.n_eqns = _count_eqns(jaxpr)
-        self.has_ext = "ext[" in str(jaxpr) or " ext" in _prims(jaxpr)
+        prims = _prims(jaxpr)
+        self.has_ext = "ext" in prims
+        self.has_uf = "uf" in prims
         self.t_trace = time.time() - t0
         t0 = time.time()
         S.FMUL_UF[0] = fmul_uf
@@ -149,7 +151,16 @@ class Problem:
         self.pre_false = any(S.is_c(x) and not x for x in pre_terms)
         self.pre_terms = [x for x in pre_terms if not S.is_c(x)]
         self.obligations = []  # (name, clause, index, term-or-const)
+        self.merged = set()
         for cname, arr in self.post.items():
+            if merge_over is not None and arr.size > merge_over:
+                # one obligation for the whole clause array (conjunction of its elements)
+                t = True
+                for x in arr.reshape(-1):
+                    t = S.b_and(t, x)
+                self.merged.add(cname)
+                self.obligations.append((f"{title}/{cname}[all {arr.size}]", cname, (), t))
+                continue
             for idx in np.ndindex(*arr.shape):
                 nm = f"{title}/{cname}" + (str(list(idx)) if idx else "")
                 self.obligations.append((nm, cname, idx, arr[idx]))
@@ -198,6 +209,8 @@ class Problem:
                "time": round(time.time() - t0, 3)}
         if r == z3.sat:
             res["model"] = self.decode(s.model())
+            self._models = getattr(self, "_models", {})
+            self._models[nm] = s.model()   # kept in-process for replays over abstract (uf) functions
         elif r == z3.unknown:
             res["reason"] = s.reason_unknown()
             alt = self.portfolio(s, to)
@@ -281,7 +294,18 @@ class Problem:
             out["note"] = "side obligation (unwinding assertion): no native replay"
             return out
         try:
-            if not self.has_ext:
+            if self.has_uf:
+                m = getattr(self, "_models", {}).get(nm)
+                if m is None:
+                    raise RuntimeError("abstract-function problem solved in another process: no model object to realise the function")
+                stubs.UF_MODEL[0] = m
+                try:
+                    with jax.disable_jit():
+                        pre, post = self.comp(*flat)  # eager: the real wrapper code over a table environment realising the model
+                finally:
+                    stubs.UF_MODEL[0] = None
+                out["mode"] = "native-eager over a lookup-table environment synthesised from the solver model"
+            elif not self.has_ext:
                 pre, post = self.comp(*flat)  # eager, real functions, no stubs
                 out["mode"] = "native-eager"
             else:
@@ -289,7 +313,7 @@ class Problem:
                 stubs.PINNED.clear()
                 ok = True  # ext inside loops: the symbolic evaluator memoises by arguments; pinned by uid (last value wins)
                 for e in res["model"]["ext"]:
-                    stubs.PINNED[e["uid"]] = [np.asarray(v) for v in e["values"]]
+                    stubs.PINNED[e["uid"]] = [_numeric(v) for v in e["values"]]
                 if not ok:
                     raise RuntimeError("sampler outcome inside a loop: pinned replay not available")
                 outs = concrete_eval(self.cj.jaxpr, self.cj.consts, *flat)
@@ -297,7 +321,7 @@ class Problem:
                 pre, post = jax.tree_util.tree_unflatten(otree, outs)
                 out["mode"] = "jaxpr-of-real-code, sampler outcomes pinned"
             pre_ok = all(bool(np.all(np.asarray(v))) for v in pre.values())
-            val = bool(np.asarray(post[cname])[idx])
+            val = bool(np.all(np.asarray(post[cname]))) if cname in self.merged else bool(np.asarray(post[cname])[idx])
             out["precondition_holds"] = pre_ok
             out["clause_value"] = val
             out["confirmed"] = bool(pre_ok and not val)
@@ -311,6 +335,14 @@ class Problem:
         return {"title": self.title, "targets": self.targets, "eqns": self.n_eqns, "trace_s": round(self.t_trace, 2),
                 "eval_s": round(self.t_eval, 2), "havocked": dict(self.sym.havocked), "uses": sorted(self.sym.uses),
                 "effects": self.effects, "inputs": len(self.sym.inputs), "note": self.note}
+
+
+def _numeric(v):
+    """nested lists of ints / bools / 'p/q' strings (reals from the model) -> numpy array"""
+    a = np.asarray(v, dtype=object)
+    if any(isinstance(x, str) for x in a.reshape(-1)):
+        return np.array([float(Fraction(x)) if isinstance(x, str) else float(x) for x in a.reshape(-1)], dtype=np.float64).reshape(a.shape)
+    return np.asarray(v)
 
 
 def concrete_eval(jaxpr, consts, *args):
@@ -454,7 +486,25 @@ def discharge(problem, workers=1, select=None):
     trivial = [i for i in idxs if S.is_c(problem.obligations[i][3]) and problem.obligations[i][3]]
     hard = [i for i in idxs if i not in set(trivial)]
     results = [problem.check_one(i) for i in trivial]
-    if workers <= 1 or len(hard) <= 1:
+    if (workers <= 1 or len(hard) <= 1) and len(hard) > 40 and not problem.pre_false:
+        # many small obligations: one incremental solver (push/pop) instead of re-asserting all assumptions per query;
+        # anything it does not settle as unsat goes to a fresh solver
+        s = problem.solver(problem.timeout * budget_scale())
+        for i in hard:
+            nm, cname, idx, term = problem.obligations[i]
+            t0 = time.time()
+            r = None
+            if not S.is_c(term):
+                s.push()
+                s.add(z3.Not(term))
+                r = s.check()
+                s.pop()
+            if r == z3.unsat:
+                results.append({"name": nm, "verdict": UNSAT, "backend": "z3-" + z3.get_version_string() + " (incremental)",
+                                "time": round(time.time() - t0, 3)})
+            else:
+                results.append(problem.check_one(i))
+    elif workers <= 1 or len(hard) <= 1:
         results += [problem.check_one(i) for i in hard]
     else:
         _CUR = problem
